@@ -27,6 +27,9 @@ type RKGCase struct {
 
 func (c RKGCase) RandSeed() uint64 { return c.Seed }
 
+// unreducedSeen counts round-two shares with residues >= q (read by nothing but ad-hoc probes).
+var unreducedSeen int
+
 func genRKG(t *rapid.T) RKGCase {
 	var c RKGCase
 	c.Common = genCommon(t)
@@ -127,6 +130,9 @@ func runRKG(c RKGCase, rec *h.Rec) error {
 		if err := in.check("RKG", "GenShareRoundOne", i); err != nil {
 			return err
 		}
+		if _, unred := congGadget(&r1[i].GadgetCiphertext, &r1[i].GadgetCiphertext, c.Params.Q, c.Params.P); unred > 0 {
+			return h.Failf("C14:RKG:round1:share-not-reduced", "round-one share of party %d holds %d coefficients >= their modulus", i, unred/2)
+		}
 	}
 
 	ops1 := rkgOps(protos[0], ek, 1)
@@ -156,6 +162,14 @@ func runRKG(c RKGCase, rec *h.Rec) error {
 		protos[i].GenShareRoundTwo(eph[i], w.sks[i], in, &r2[i])
 		if err := snap.check("RKG", "GenShareRoundTwo", i); err != nil {
 			return err
+		}
+		// a share with residues >= q makes the bytes of the aggregate depend on the order of aggregation
+		if _, unred := congGadget(&r2[i].GadgetCiphertext, &r2[i].GadgetCiphertext, c.Params.Q, c.Params.P); unred > 0 {
+			unreducedSeen++
+			key, msg := "C14:RKG:round2:aggregate-representation-depends-on-schedule", fmt.Sprintf("round-two share of party %d holds %d coefficients >= their modulus", i, unred/2)
+			if !rec.Known(key, msg) {
+				return h.Failf(key, "%s", msg)
+			}
 		}
 	}
 	ops2 := rkgOps(protos[0], ek, 2)
